@@ -4,7 +4,7 @@
     sentinel and is tiled EXACTLY by free-list nodes and objects, the free list is strictly increasing,
     coalesced (no two chunks adjacent), sizes positive and aligned, all mark bits clear. *)
 From Coq Require Import ZArith List Permutation.
-From ChibiV Require Import Gen.C10_Consts C10.Model C10.Spec C10.Proofs C10.Sweep C10.Theorems C10.More C10.Oom C10.Examples.
+From ChibiV Require Import Gen.C10_Consts C10.Model C10.Spec C10.Proofs C10.Sweep C10.Theorems C10.More C10.Oom C10.SizeClass C10.Examples.
 Import ListNotations.
 Local Open Scope Z_scope.
 
@@ -110,3 +110,10 @@ Theorem oom_only_at_max : forall st size mss, Inv st -> 0 < size -> (unit_sz | s
   max_size st <> 0 /\ exists st1 mf sf, gc st mss = Some (st1, mf, sf) /\ max_size st <= total_size st1.
 Proof. exact oom_only_at_max_lemma. Qed.
 Print Assumptions oom_only_at_max.
+
+(** one size class: when every object has at least n bytes, a collection frees nothing or reports
+    max_freed >= n — the first premise of [hist_ok] for histories whose requests all have size n *)
+Theorem single_class_fit : forall st mss st1 mf sf n, 0 <= n -> Forall (heap_ge n) (heaps st) ->
+  gc st mss = Some (st1, mf, sf) -> n <= mf \/ sf = 0.
+Proof. exact single_class_fit_lemma. Qed.
+Print Assumptions single_class_fit.
